@@ -758,3 +758,55 @@ def rule_cross_object_compare(ctx):
                 ctx.holds("SELFCMP", k, f.where(), "`%s` compares values of two different objects on every path" % key[0][:60], nontrivial=True)
     ctx.floor("SELFCMP", 1, n, "(comparisons of an object's field with a local loaded from a field)")
     return n
+
+
+def rule_cache_full_scan(ctx):
+    """FULLSCAN (C13): the atom layer keeps the last looked-up ids in a small fixed array (the lookup cache).  Releasing an id
+    must purge it from *every* slot; a loop over the cache that runs over a constant number of slots therefore runs over exactly
+    the array's dimension.  A shorter scan leaves a released id (with its object pointer) resolvable through the slot that was
+    skipped — the stale id then designates a freed or recycled object."""
+    import re
+    from .codec import ast_walk, ast_exprs
+    from .facts import kind, strip, walk, is_int, int_val, render
+    prog = ctx.prog
+    G = {}
+    for name, gl in prog.globals.items():
+        for g in gl:
+            m = re.fullmatch(r".*\[(\d+)\]", g.get("type", ""))
+            if m and g.get("file", "").endswith("atom.c"):
+                G[name] = int(m.group(1))
+    n = 0
+    for f in prog.lib_funcs():
+        if not f.rel.endswith("atom.c"):
+            continue
+        loops = []
+
+        def vis(nn, st):
+            if nn[0] == "for" and nn[2] is not None:
+                c = strip(nn[2])
+                if kind(c) == "bin" and c[1] in ("<", "<=") and kind(strip(c[2])) == "var":
+                    loops.append((nn, strip(c[2])[1], c))
+            return True
+        ast_walk(f.raw.get("ast"), vis)
+        ordn = 0
+        for lp, iv, c in loops:
+            arrs = {strip(x[1])[1] for e in ast_exprs(lp[4]) for x in walk(e, True)
+                    if x[0] == "idx" and kind(strip(x[1])) == "var" and strip(x[1])[1] in G and kind(strip(x[2])) == "var" and strip(x[2])[1] == iv}
+            if not arrs:
+                continue
+            ordn += 1
+            n += 1
+            key = "FULLSCAN:%s#%d" % (f.name, ordn)
+            dim = min(G[a] for a in arrs)
+            bound = strip(c[3])
+            if not is_int(bound):
+                ctx.unrecognised("FULLSCAN", key, f.where(lp[5] if len(lp) > 5 else None), "cache loop bounded by `%s`, not by a constant" % render(bound)[:30])
+                continue
+            cnt = int_val(bound) + (1 if c[1] == "<=" else 0)
+            if cnt == dim:
+                ctx.holds("FULLSCAN", key, f.where(), "loop over %s covers all %d slots" % ("/".join(sorted(arrs)), dim), nontrivial=True)
+            else:
+                ctx.violated("FULLSCAN", key, f.where(), "the loop over the lookup cache (%s, %d slots) runs over %d slot(s): %s" % (
+                    "/".join(sorted(arrs)), dim, cnt, "a released id stays resolvable through the slot that is skipped" if cnt < dim else "it runs past the array"))
+    ctx.floor("FULLSCAN", 2, n, "(loops over the atom lookup cache)")
+    return n
